@@ -346,8 +346,8 @@ class C16Models:
             st = ex.st
             L = st.heap[args[0].id]
             m = ex.contract.fun_output_dim
-            if not st.decide(L.n >= 1):
-                raise Unsupported("numpy.array of an empty list of vectors (rank 1)")
+            # array([]) is an empty rank-1 array, not a matrix: the callers here transpose / index a matrix
+            ex.check(L.n >= 1, "safety", "array:at-least-one-row", lineno, aux=True)
             j = z3.Int("j!na")
             ex.check(z3.ForAll([j], z3.Implies(z3.And(0 <= j, j < L.n), L.t.dim(L.elems[j]) == m)), "safety", "array:rows-have-the-same-length", lineno, aux=True)
             r, q = z3.Int("i!np0"), z3.Int("i!np1")
